@@ -15,6 +15,7 @@
   `TimeRangesTrigger` built from an empty list (ValueError) and `self._next_matches[0]` of a `PeriodsTrigger`
   built from an empty list (IndexError).
 -/
+import Demeter.Gen.ConstsCore
 namespace Demeter.Core
 
 /-- Python exception classes the bar loop can meet -/
@@ -30,7 +31,7 @@ def PyErr.name : PyErr → String
   | .demeterError => "DemeterError"
 
 /-- `to_minute(time)`: drop the seconds -/
-def toMinute (s : Int) : Int := s - s % 60
+def toMinute (s : Int) : Int := s - s % Gen.coreMinuteSec
 
 /-- what the user passes to a trigger constructor (times in seconds, before `to_minute`) -/
 inductive TrigSpec
@@ -57,7 +58,7 @@ inductive TrigKind
 deriving DecidableEq, Repr, Inhabited
 
 /-- `_check_time_delta`: `True` = raises DemeterError("min time span is 1 minute") -/
-def badDelta (δ : Int) : Bool := δ % 60 != 0 || decide (δ ≤ 0)
+def badDelta (δ : Int) : Bool := δ % Gen.coreTrigDeltaMod != 0 || decide (δ ≤ Gen.coreTrigDeltaLow)
 
 /-- the constructors (`__init__`) -/
 def TrigSpec.make : TrigSpec → Except PyErr TrigKind
